@@ -22,12 +22,22 @@
 
 /* ---- interpose the system allocator *inside* protobuf-c.c only ------------------------- */
 static long g_sys_malloc_calls, g_sys_free_calls;
+#ifdef PBCV_MT
+/* multi-threaded mode (C17): no instrumentation state of our own may be shared between threads */
+static void *pbcv_sys_malloc(size_t n) { return malloc(n); }
+static void pbcv_sys_free(void *p) { free(p); }
+#else
 static void *pbcv_sys_malloc(size_t n) { g_sys_malloc_calls++; return malloc(n); }
 static void pbcv_sys_free(void *p) { g_sys_free_calls++; free(p); }
+#endif
 
 static int g_err_lines[64];
 static int g_n_err;
+#ifdef PBCV_MT
+static void pbcv_err(int line) { (void) line; }
+#else
 static void pbcv_err(int line) { if (g_n_err < 64) g_err_lines[g_n_err++] = line; }
+#endif
 #define PROTOBUF_C_UNPACK_ERROR(...) pbcv_err(__LINE__)
 
 #include <assert.h>
@@ -716,7 +726,7 @@ static void op_ranges(void)
 	ProtobufCIntRange *r = malloc((n + 1) * sizeof *r);
 	for (i = 0; i <= n; i++) { r[i].start_value = (int) tok_ll(); r[i].orig_index = tok_ll(); }
 	printf("r=");
-	while (g_pos < g_ntok) { int key = (int) tok_ll(); printf("%d,", int_range_lookup(n, r, key)); }
+	while (g_pos < g_ntok && g_tok[g_pos][0] != '#') { int key = (int) tok_ll(); printf("%d,", int_range_lookup(n, r, key)); }
 	printf("\n");
 	free(r);
 }
@@ -763,6 +773,82 @@ static void run_op(const char *op)
 	sfree_all();
 }
 
+#ifdef PBCV_MT
+/* ---- C17: N threads, disjoint messages, shared descriptors / defaults / default allocator --------- */
+#include <pthread.h>
+typedef struct { int ty; size_t len; uint8_t *bytes; } MtInput;
+static MtInput *g_in; static size_t g_nin;
+typedef struct { int id; uint64_t digest; long ok, fail; } MtThread;
+
+static uint64_t fnv(uint64_t h, const void *p, size_t n) { const uint8_t *b = p; size_t i; for (i = 0; i < n; i++) { h ^= b[i]; h *= 1099511628211ULL; } return h; }
+
+static void *mt_worker(void *arg)
+{
+	MtThread *t = arg;
+	size_t k, rounds;
+	uint64_t h = 1469598103934665603ULL;
+	for (rounds = 0; rounds < 3; rounds++)
+	for (k = 0; k < g_nin; k++) {
+		size_t idx = (k + (rounds ? 0 : 0)) % g_nin;      /* same order in every thread: digests must be equal */
+		MtInput *x = &g_in[idx];
+		MsgX *mx = &g_msgs[x->ty];
+		ProtobufCMessage *m = protobuf_c_message_unpack(&mx->d, NULL, x->len, x->bytes);
+		const ProtobufCFieldDescriptor *f;
+		if (!m) { t->fail++; h = fnv(h, "F", 1); continue; }
+		t->ok++;
+		{
+			size_t sz = protobuf_c_message_get_packed_size(m);
+			uint8_t *b = malloc(sz ? sz : 1);
+			size_t w = protobuf_c_message_pack(m, b);
+			int chk = protobuf_c_message_check(m);
+			uint8_t pad[8];
+			ProtobufCBufferSimple sb = PROTOBUF_C_BUFFER_SIMPLE_INIT(pad);
+			protobuf_c_message_pack_to_buffer(m, &sb.base);
+			h = fnv(h, b, w); h = fnv(h, &chk, sizeof chk); h = fnv(h, sb.data, sb.len);
+			PROTOBUF_C_BUFFER_SIMPLE_CLEAR(&sb);
+			free(b);
+		}
+		if (mx->d.n_fields) {
+			f = protobuf_c_message_descriptor_get_field(&mx->d, mx->f[idx % mx->d.n_fields].id);
+			h = fnv(h, &f->id, sizeof f->id);
+			f = protobuf_c_message_descriptor_get_field_by_name(&mx->d, mx->f[idx % mx->d.n_fields].name);
+			h = fnv(h, f ? "y" : "n", 1);
+		}
+		protobuf_c_message_free_unpacked(m, NULL);
+	}
+	t->digest = h;
+	return NULL;
+}
+
+int main(int argc, char **argv)
+{
+	FILE *in;
+	int nthreads = argc > 2 ? atoi(argv[2]) : 8, i;
+	size_t cap = 0;
+	pthread_t *th;
+	MtThread *ts;
+	if (argc < 2 || !(in = fopen(argv[1], "r"))) die("usage: harness_mt <case file with ONE schema> [threads]");
+	while (read_line(in)) {
+		const char *op;
+		if (!g_line[0] || g_line[0] == '#') continue;
+		tokenize(g_line);
+		op = tok();
+		if (!strcmp(op, "schema")) { if (g_nmsgs) break; read_schema(in, (int) tok_ll()); continue; }
+		if (!strcmp(op, "unpack") || !strcmp(op, "acc") || !strcmp(op, "unpackf")) {
+			if (g_nin == cap) { cap = cap ? 2 * cap : 256; g_in = realloc(g_in, cap * sizeof *g_in); }
+			g_in[g_nin].ty = (int) tok_ll();
+			g_in[g_nin].bytes = hex2bytes(tok() + 1, &g_in[g_nin].len);
+			g_nin++;
+		}
+	}
+	th = calloc(nthreads, sizeof *th); ts = calloc(nthreads, sizeof *ts);
+	for (i = 0; i < nthreads; i++) { ts[i].id = i; pthread_create(&th[i], NULL, mt_worker, &ts[i]); }
+	for (i = 0; i < nthreads; i++) pthread_join(th[i], NULL);
+	for (i = 0; i < nthreads; i++) printf("thread=%d digest=%016llx ok=%ld fail=%ld\n", i, (unsigned long long) ts[i].digest, ts[i].ok, ts[i].fail);
+	printf("inputs=%zu threads=%d\n", g_nin, nthreads);
+	return 0;
+}
+#else
 int main(int argc, char **argv)
 {
 	FILE *in = stdin;
@@ -810,3 +896,4 @@ int main(int argc, char **argv)
 	free_schema();
 	return 0;
 }
+#endif
